@@ -12,3 +12,6 @@ META = {
 }
 # future triggers (a[+Pn] => b): a run that the runahead limit would deadlock without the future-offset adjustment
 STREAMS.append(SchedStream('C03', name="sched-future", feat={'future': True, 'abs': True, 'max_fcp': 6}, n_quick=32, n_thorough=600))
+# retries with non-zero delays under a virtual clock: tasks waiting for a retry timer while other tasks are
+# finished-but-incomplete (a stall must not be reported while a retry is pending)
+STREAMS.append(SchedStream('C03', name="sched-retry-delay", feat={'retries': True, 'retry_delay': True}, n_quick=28, n_thorough=500))
